@@ -120,20 +120,23 @@ theorem default_covers_4k_rects : ∀ p ∈ formatTable, ∀ (c : Colour) (x y w
     have h1 : w * bpp ≤ 4096 * 16 := Nat.mul_le_mul hw hc
     have : max TARGET_BUFFER_SIZE 0 = TARGET_BUFFER_SIZE := Nat.max_eq_left (Nat.zero_le _)
     rw [this] at hb
-    unfold TARGET_BUFFER_SIZE at hb; unfold DEFAULT_MEMORY_LIMIT; omega
+    unfold TARGET_BUFFER_SIZE SrcConsts.TARGET_BUFFER_SIZE at hb
+    unfold DEFAULT_MEMORY_LIMIT SrcConsts.DEFAULT_MEMORY_LIMIT; omega
   | block bw bh bpb =>
     simp only [lineBytes, rowOrPlaneBytes, rectCond] at hb hc
     rw [Nat.max_eq_left hc] at hb
-    unfold TARGET_BUFFER_SIZE at hb; unfold DEFAULT_MEMORY_LIMIT; omega
+    unfold TARGET_BUFFER_SIZE SrcConsts.TARGET_BUFFER_SIZE at hb
+    unfold DEFAULT_MEMORY_LIMIT SrcConsts.DEFAULT_MEMORY_LIMIT; omega
   | biPlanar e1 e2 sx sy =>
     simp only [lineBytes, rowOrPlaneBytes, rectCond] at hb hc
     rw [Nat.max_eq_left hc.2] at hb
     have h1 : 4096 * e1 * h ≤ 4096 * 2 * 4096 := Nat.mul_le_mul (Nat.mul_le_mul_left _ hc.1) hh
-    unfold TARGET_BUFFER_SIZE at hb; unfold DEFAULT_MEMORY_LIMIT; omega
+    unfold TARGET_BUFFER_SIZE SrcConsts.TARGET_BUFFER_SIZE at hb
+    unfold DEFAULT_MEMORY_LIMIT SrcConsts.DEFAULT_MEMORY_LIMIT; omega
 
 /-- the default limit is what the worst format needs at 4K plus less than 1 MiB: P010/P016 need
-32 MiB + 64 KiB -/
-example : planNeed (plan (.biPlanar 2 4 2 2) (2, 1) (.full 4096 4096)) = 32 * 1024 * 1024 + 65536 := by
+32 MiB + the line buffer (64 KiB at the pinned commit) -/
+example : planNeed (plan (.biPlanar 2 4 2 2) (2, 1) (.full 4096 4096)) = 32 * 1024 * 1024 + TARGET_BUFFER_SIZE := by
   decide +kernel
 
 /-- non-vacuity: NV12 6×6 needs 54 bytes; limit 53 is refused, 54 is enough -/
